@@ -141,7 +141,7 @@ def r2_single_decode(ctx, cfg):
     rule = "C04.R2"
     ctx.rule(rule, "decoded bytes never flow into another BLTE decoder (decode at most once on the read path)")
     direct, dec = decoders(ctx, cfg)
-    ctx.floor(rule, len(direct), 2, "functions that parse BLTE in the storage crate")
+    ctx.floor(rule, len(direct), 1, "functions that parse BLTE in the storage crate")
     prog = ctx.prog
     byte_dec = {d for d in dec if d in prog.bodies and (returns_bytes(prog.bodies[d]) or (prog.bodies[d].root is None and any(
         returns_bytes(prog.bodies[x]) for x in prog.children.get(d, []))))}
